@@ -107,6 +107,13 @@ class TypeEnv:
                 elif isinstance(n, ast.Assign) and len(n.targets) == 1:
                     tgt = n.targets[0]
                     if isinstance(tgt, ast.Name):
+                        ann = getattr(n, "_annotation", None)  # canonicalised ``x: T = e``
+                        t = ann_type(repo, fi.module, ann) if ann is not None else None
+                        if t and t.text in ("object", "Any", "typing.Any"):
+                            t = None  # uninformative annotation: fall back to the type of the value
+                        if t:
+                            self.locals[tgt.id] = t
+                            continue
                         t = self.type_of(n.value)
                         if t and not self.locals.get(tgt.id):
                             self.locals[tgt.id] = t
